@@ -93,7 +93,8 @@ int vn_getpeername(int fd, struct sockaddr *a, socklen_t *l) { consume("getpeern
 int vn_bind(int fd, const struct sockaddr *a, socklen_t l) { consume("bind"); return bind(fd, a, l); }
 int vn_listen(int fd, int b) { consume("listen"); return listen(fd, b); }
 int vn_fcntl(int fd, int cmd, ...) { va_list ap; va_start(ap, cmd); long arg = va_arg(ap, long); va_end(ap); consume("fcntl"); return fcntl(fd, cmd, arg); }
-int vn_close(int fd) { consume("close"); ledger_close(fd); return close(fd); }
+// an interrupted close() on Linux has released the descriptor all the same: the planned fault closes for real and then reports EINTR
+int vn_close(int fd) { const Fault *f = consume("close"); ledger_close(fd); int r = close(fd); if (f && f->kind == 1) { errno = EINTR; return -1; } return r; }
 // sleeps: a planned interruption performs a real, shortened sleep and then reports EINTR exactly as POSIX specifies for the call
 int vn_clock_nanosleep(clockid_t c, int fl, const struct timespec *req, struct timespec *rem) {
   const Fault *f = consume("clock_nanosleep");
@@ -780,6 +781,8 @@ rc::Gen<Case> genC10() {
     if (sel % 3 == 0) { for (int k : {1, 2, 4}) { Fault f; f.call = "poll"; f.k = k + sel % 2; f.kind = 1; f.arg = (sel % 5 == 0) ? 0 : (sel % 5 < 3 ? 5 : 15); f.burst = 1 + sel % 2; c.plan.push_back(f); } }
     // every third case: the native call reports would-block although poll() announced readiness (another thread took the connection / the
     // data, a checksum failure ...); delivered only to calls on blocking sockets, where the library has to go back to waiting
+    // every third case: close() interrupted by a signal (the descriptor is gone nevertheless)
+    if (sel % 3 == 2) { for (int k : {1, 2, 4}) { Fault f; f.call = "close"; f.k = k; f.kind = 1; f.burst = 1; c.plan.push_back(f); } }
     if (sel % 3 == 1) { for (const char *call : {"accept", "recv", "send"}) for (int k : {1, 3}) { Fault f; f.call = call; f.k = k + sel % 2; f.kind = 2; f.burst = 1 + (sel / 3) % 2; c.plan.push_back(f); } }
     return c; });
 }
